@@ -29,7 +29,9 @@ Record pstate := mkPS {
   ps_strict : bool;
   ps_ver : version;
   ps_nfiles : nat;             (* filenames.len() *)
-  ps_ftab : list fentry
+  ps_ftab : list fentry;
+  ps_pos : nat;                (* token_cursor.pos = length ps_before *)
+  ps_kept : option nat         (* kept_comment_pos *)
 }.
 
 Inductive R (A : Type) := ROk (a : A) | RErr (d : diag) | RPanic (site : string) | RFuel.
@@ -62,19 +64,21 @@ Definition try {A} (m : M A) : M (option A * option diag) :=
            end.
 
 (* ---------- state updates ---------- *)
-Definition upd_cursor (s : pstate) (b a : list token) : pstate :=
-  mkPS b a (ps_first_line s) (ps_last s) (ps_seq s) (ps_log s) (ps_strict s) (ps_ver s) (ps_nfiles s) (ps_ftab s).
+Definition upd_cursor (s : pstate) (b a : list token) (pos : nat) : pstate :=
+  mkPS b a (ps_first_line s) (ps_last s) (ps_seq s) (ps_log s) (ps_strict s) (ps_ver s) (ps_nfiles s) (ps_ftab s) pos (ps_kept s).
+Definition upd_kept (s : pstate) (k : option nat) : pstate :=
+  mkPS (ps_before s) (ps_after s) (ps_first_line s) (ps_last s) (ps_seq s) (ps_log s) (ps_strict s) (ps_ver s) (ps_nfiles s) (ps_ftab s) (ps_pos s) k.
 Definition upd_last (s : pstate) (l : N) : pstate :=
-  mkPS (ps_before s) (ps_after s) (ps_first_line s) l (ps_seq s) (ps_log s) (ps_strict s) (ps_ver s) (ps_nfiles s) (ps_ftab s).
+  mkPS (ps_before s) (ps_after s) (ps_first_line s) l (ps_seq s) (ps_log s) (ps_strict s) (ps_ver s) (ps_nfiles s) (ps_ftab s) (ps_pos s) (ps_kept s).
 Definition upd_seq (s : pstate) (n : N) : pstate :=
-  mkPS (ps_before s) (ps_after s) (ps_first_line s) (ps_last s) n (ps_log s) (ps_strict s) (ps_ver s) (ps_nfiles s) (ps_ftab s).
+  mkPS (ps_before s) (ps_after s) (ps_first_line s) (ps_last s) n (ps_log s) (ps_strict s) (ps_ver s) (ps_nfiles s) (ps_ftab s) (ps_pos s) (ps_kept s).
 Definition upd_log (s : pstate) (l : list diag) : pstate :=
-  mkPS (ps_before s) (ps_after s) (ps_first_line s) (ps_last s) (ps_seq s) l (ps_strict s) (ps_ver s) (ps_nfiles s) (ps_ftab s).
+  mkPS (ps_before s) (ps_after s) (ps_first_line s) (ps_last s) (ps_seq s) l (ps_strict s) (ps_ver s) (ps_nfiles s) (ps_ftab s) (ps_pos s) (ps_kept s).
 Definition upd_ver (s : pstate) (v : version) : pstate :=
-  mkPS (ps_before s) (ps_after s) (ps_first_line s) (ps_last s) (ps_seq s) (ps_log s) (ps_strict s) v (ps_nfiles s) (ps_ftab s).
+  mkPS (ps_before s) (ps_after s) (ps_first_line s) (ps_last s) (ps_seq s) (ps_log s) (ps_strict s) v (ps_nfiles s) (ps_ftab s) (ps_pos s) (ps_kept s).
 
 Definition init_state (toks : list token) (strict : bool) (nfiles : nat) (ftab : list fentry) : pstate :=
-  mkPS [] toks (match toks with t :: _ => Some (tk_line t) | [] => None end) 0 0 [] strict V171 nfiles ftab.
+  mkPS [] toks (match toks with t :: _ => Some (tk_line t) | [] => None end) 0 0 [] strict V171 nfiles ftab O None.
 
 (* ---------- errors ---------- *)
 (* every constructor reads filenames[context.fileid] (index panic if out of range) and last_token_position *)
@@ -88,7 +92,7 @@ Definition error_or_log (d : diag) : M unit :=
   fun s => if ps_strict s then (RErr d, s) else (ROk tt, upd_log s (d :: ps_log s)).
 
 (* ---------- the cursor ---------- *)
-Definition get_tokenpos : M nat := fun s => (ROk (length (ps_before s)), s).
+Definition get_tokenpos : M nat := fun s => (ROk (ps_pos s), s).
 
 Fixpoint move_back (n : nat) (b a : list token) : list token * list token :=
   match n, b with
@@ -102,10 +106,10 @@ Fixpoint move_fwd (n : nat) (b a : list token) : list token * list token :=
   end.
 (* set_tokenpos: any position may be stored; the generated code only restores earlier positions *)
 Definition set_tokenpos (newpos : nat) : M unit :=
-  fun s => let pos := length (ps_before s) in
+  fun s => let pos := ps_pos s in
            let '(b, a) := if Nat.leb newpos pos then move_back (pos - newpos) (ps_before s) (ps_after s)
                           else move_fwd (newpos - pos) (ps_before s) (ps_after s) in
-           (ROk tt, upd_cursor s b a).
+           (ROk tt, upd_cursor s b a (length b)).
 
 Definition peek_token : M (option token) :=
   fun s => (ROk (match ps_after s with t :: _ => Some t | [] => None end), s).
@@ -114,35 +118,54 @@ Definition eof_diag (c : ctx) : M diag := mk_diag "UnexpectedEOF" c (c_element c
 
 Definition get_token (c : ctx) : M token :=
   fun s => match ps_after s with
-           | t :: a => (ROk t, upd_last (upd_cursor s (t :: ps_before s) a) (tk_line t))
+           | t :: a => (ROk t, upd_last (upd_cursor s (t :: ps_before s) a (S (ps_pos s))) (tk_line t))
            | [] => bindM (eof_diag c) fail s
            end.
 
 (* token_cursor.next() without touching last_token_position *)
 Definition cursor_next : M unit :=
   fun s => match ps_after s with
-           | t :: a => (ROk tt, upd_cursor s (t :: ps_before s) a)
+           | t :: a => (ROk tt, upd_cursor s (t :: ps_before s) a (S (ps_pos s)))
            | [] => (ROk tt, s)
            end.
 
 (* TokenIter::back: pos -= 1 (usize underflow panics in a debug build) *)
 Definition undo_get_token : M unit :=
   fun s => match ps_before s with
-           | t :: b => (ROk tt, upd_cursor s b (t :: ps_after s))
+           | t :: b => (ROk tt, upd_cursor s b (t :: ps_after s) (pred (ps_pos s)))
            | [] => (RPanic "parser.rs: TokenIter::back at position 0", s)
            end.
 
-(* get_line_offset: u32 subtraction panics on underflow in a debug build *)
+(* get_line_offset: u32 subtraction panics on underflow in a debug build.
+   The previous token is the nearest preceding token that is written again: comments that are not stored
+   (not handed out by get_next_tag_or_comment to a block) are skipped. *)
+Definition opt_nat_eqb (o : option nat) (n : nat) : bool :=
+  match o with Some k => Nat.eqb k n | None => false end.
+
+Fixpoint find_prev (l : list token) (idx : nat) (kept : option nat) : option (token * nat) :=
+  match l with
+  | [] => None
+  | t :: r =>
+      if Nat.ltb 0 idx && ttype_eqb (tk_type t) TComment && negb (opt_nat_eqb kept idx)
+      then find_prev r (pred idx) kept
+      else Some (t, idx)
+  end.
+
 Definition get_line_offset : M N :=
   fun s => match ps_before s, ps_after s with
-           | cur :: prev :: _, _ :: _ =>
-               (* a comment token carries its start line; line breaks inside it belong to its text *)
-               let prev_line := if ttype_eqb (tk_type prev) TComment
-                                then tk_line prev + count_newlines (tk_text prev) else tk_line prev in
-               if Nat.eqb (tk_fileid prev) (tk_fileid cur) then
-                 if prev_line <=? tk_line cur then (ROk (tk_line cur - prev_line), s)
-                 else (RPanic "parser.rs: get_line_offset: cur_line - prev_line", s)
-               else (ROk 2, s)
+           | cur :: (_ :: _) as before_tail, _ :: _ =>
+               match find_prev before_tail (ps_pos s - 2) (ps_kept s) with
+               | None => (RPanic "parser.rs: get_line_offset: tokens[prev_pos]", s)
+               | Some (prev, prev_pos) =>
+                   let prev_line :=
+                     if ttype_eqb (tk_type prev) TComment && negb (opt_nat_eqb (ps_kept s) prev_pos) then 1
+                     else if opt_nat_eqb (ps_kept s) prev_pos then tk_line prev + count_newlines (tk_text prev)
+                     else tk_line prev in
+                   if Nat.eqb (tk_fileid prev) (tk_fileid cur) then
+                     if prev_line <=? tk_line cur then (ROk (tk_line cur - prev_line), s)
+                     else (RPanic "parser.rs: get_line_offset: cur_line - prev_line", s)
+                   else (ROk 2, s)
+               end
            | _, _ =>
                match ps_first_line s with
                | Some l => if 1 <=? l then (ROk (l - 1), s) else (RPanic "parser.rs: get_line_offset: tokens[0].line - 1", s)
@@ -301,7 +324,10 @@ Definition get_next_tag_or_comment (c : ctx) : M block_content :=
   match pk with
   | Some t =>
       if ttype_eqb (tk_type t) TComment then
-        cursor_next ;;; off <-- get_line_offset ;; ret (BCComment t off)
+        cursor_next ;;; off <-- get_line_offset ;;
+        (if bytes_eqb (c_element c) (list_ascii_of_string "A2L_FILE") then ret tt
+         else (fun s => (ROk tt, upd_kept s (Some tokenpos)))) ;;;
+        ret (BCComment t off)
       else if ttype_eqb (tk_type t) TBegin then
         get_token c ;;;
         off <-- get_line_offset ;;
